@@ -96,7 +96,7 @@ func (w *World) shapeOf(p pkgT, fd *ast.FuncDecl, e ast.Expr) string {
 			if v, ok := o.(*types.Var); ok && !v.IsField() && v.Parent() != p.Types.Scope() {
 				return "<" + types.TypeString(v.Type(), func(pk *types.Package) string { return "" }) + ">"
 			}
-			if k, ok := o.(*types.Const); ok && k.Parent() != p.Types.Scope() && k.Parent() != types.Universe {
+			if k, ok := o.(*types.Const); ok && k.Parent() != types.Universe {
 				return "<const " + types.TypeString(k.Type(), func(pk *types.Package) string { return "" }) + ">"
 			}
 			return x.Name
@@ -107,7 +107,9 @@ func (w *World) shapeOf(p pkgT, fd *ast.FuncDecl, e ast.Expr) string {
 		case *ast.SliceExpr:
 			s := r(x.X) + "["
 			if x.Low != nil {
-				s += r(x.Low)
+				if k, ok := ConstInt(p, x.Low); !ok || k != 0 {
+					s += r(x.Low)
+				}
 			}
 			s += ":"
 			if x.High != nil {
@@ -139,13 +141,13 @@ func (w *World) shapeOf(p pkgT, fd *ast.FuncDecl, e ast.Expr) string {
 // function: the invariant belongs to the fields). Value: why it is in range.
 var idx2Table = map[string]string{
 	// not input-facing
-	"ReadOperands/<[]byte>[<int>]":                      "decodes the operands of compiled instructions, not source text: the stream is the compiler's own output, whose operand bytes CODEC.1-3 account for",
-	"ReadOperands/<[]byte>[<int>+1]":                    "as above",
-	"ReadOperands/<[]byte>[<int>+2]":                    "as above",
-	"ReadOperands/<[]byte>[<int>+3]":                    "as above",
-	"ErrorList.Swap/recv[<int>]":                        "sort.Interface: package sort calls it with 0 <= i, j < Len()",
-	"ErrorList.Less/recv[<int>]":                        "sort.Interface: package sort calls it with 0 <= i, j < Len()",
-	"Parser.printTrace/<const untyped string>[0:<int>]": "trace output only; the loop before it leaves 0 <= i <= len(dots) (indent is never negative: every tracep is paired with untracep)",
+	"ReadOperands/<[]byte>[<int>]":                     "decodes the operands of compiled instructions, not source text: the stream is the compiler's own output, whose operand bytes CODEC.1-3 account for",
+	"ReadOperands/<[]byte>[<int>+1]":                   "as above",
+	"ReadOperands/<[]byte>[<int>+2]":                   "as above",
+	"ReadOperands/<[]byte>[<int>+3]":                   "as above",
+	"ErrorList.Swap/recv[<int>]":                       "sort.Interface: package sort calls it with 0 <= i, j < Len()",
+	"ErrorList.Less/recv[<int>]":                       "sort.Interface: package sort calls it with 0 <= i, j < Len()",
+	"Parser.printTrace/<const untyped string>[:<int>]": "trace output only; the loop before it leaves 0 <= i <= len(dots) (indent is never negative: every tracep is paired with untracep)",
 	// the scanner's window into the source
 	"*/recv.src[<int>:recv.offset]":   "the low bound was taken from recv.offset (or offset-1 after one consumed character) before further next() calls; offset only grows and next() sets it from readOffset <= len(src)",
 	"Scanner.scanComment/<[]byte>[1]": "the comment text spans the initial '/' and at least the second character of the opener, which next() has consumed: len >= 2",
@@ -157,6 +159,37 @@ var idx2Table = map[string]string{
 	"searchFiles/<[]*SourceFile>[<int>]": "callback of sort.Search, called with 0 <= i < n",
 	"*/recv.Lines[<int>]":                "the index is the result of searchInts, tested >= 0; searchInts returns at most len-1",
 	"searchInts/<[]int>[<int>]":          "binary search invariant i <= h < j <= len(a)",
+	// ---- the compile path (package tengo: compiler.go, symbol_table.go, instructions.go, modules.go)
+	"*/recv.scopes[recv.scopeIndex]":                                                   "scopeIndex is len(scopes)-1: NewCompiler starts with one scope at index 0, enterScope appends and increments, leaveScope cuts and decrements (pairing on all exits: SCOPE.1)",
+	"*/recv.scopes[:len(recv.scopes)-1]":                                               "leaveScope follows an enterScope (SCOPE.1), so there are at least two scopes",
+	"*/recv.scopes[recv.scopeIndex].Instructions[<int>:]":                              "the position was returned by addInstruction for this scope: at most the length of its stream",
+	"*/recv.loops[recv.loopIndex]":                                                     "read only behind `loopIndex == -1 → nil` (currentLoop); loopIndex is len(loops)-1 by enterLoop/leaveLoop (SCOPE.1, JMP.2)",
+	"*/recv.loops[:len(recv.loops)-1]":                                                 "leaveLoop follows an enterLoop (SCOPE.1)",
+	"*/recv.currentInstructions()[<int>]":                                              "the operand position handed to changeOperand is one emit returned (JMP.1)",
+	"*/recv.currentInstructions()[<int>:]":                                             "the position handed to replaceInstruction comes from changeOperand (JMP.1)",
+	"*/FormatInstructions(recv.scopes[recv.scopeIndex].Instructions[<int>:],<int>)[0]": "trace output only: the slice starts at an instruction just written, so there is at least one line",
+	"Compiler.compileAssign/<[]Expr>[0]":                                               "called with the sides of an AssignStmt (non-empty, premise below) or with one-element literals from the IncDecStmt arm",
+	"Compiler.optimizeFunc/<[]int>[0]":                                                 "inside the case for the jump opcodes, which have one operand each (CODEC.1/5)",
+	"Compiler.optimizeFunc/<[]byte>[<int>:]":                                           "copy into the new stream at a position taken from the position map, which holds lengths of that same stream when the instruction was appended (OPT.2)",
+	"Compiler.printTrace/<const untyped string>[:<int>]":                               "trace output only; the loop before it leaves 0 <= i <= len(dots)",
+	"MakeInstruction/parser.OpcodeOperands[<Opcode>]":                                  "opcodes are the dense constants 0..N-1 that index this table (CODEC.1)",
+	"MakeInstruction/<[]byte>[0]":                                                      "the instruction is made with length 1 + the operand widths",
+	"MakeInstruction/<[]byte>[<int>]":                                                  "offset runs over the operand widths whose sum sized the instruction; CODEC.2 checks that every call passes exactly as many operands as the opcode has",
+	"MakeInstruction/<[]byte>[<int>+1]":                                                "as above (width 2 or 4)",
+	"MakeInstruction/<[]byte>[<int>+2]":                                                "as above (width 4)",
+	"MakeInstruction/<[]byte>[<int>+3]":                                                "as above (width 4)",
+	"MakeInstruction/<[]int>[<int>]":                                                   "one width per operand passed (CODEC.2)",
+	"FormatInstructions/parser.OpcodeNames[<[]byte>[<int>]]":                           "disassembly of a stream the compiler wrote: every opcode byte is one of the dense opcode constants (CODEC.1)",
+	"FormatInstructions/parser.OpcodeOperands[<[]byte>[<int>]]":                        "as above",
+	"FormatInstructions/<[]int>[0]":                                                    "inside the case for that number of operands",
+	"FormatInstructions/<[]int>[1]":                                                    "inside the case for two operands",
+	"iterateInstructions/parser.OpcodeOperands[<[]byte>[<int>]]":                       "walks a stream the compiler wrote, instruction by instruction (widths: CODEC.1-3)",
+	"Script.Compile/<[]Object>[:<int>]":                                                "behind the test that the symbol count does not exceed GlobalsSize, the length the slice was made with (PANIC.3)",
+	"Script.prepCompile/<[]Object>[<*Symbol>.Index]":                                   "the names were counted against GlobalsSize before the slice of that length was made (PANIC.3)",
+	"updateConstIndexes/parser.OpcodeOperands[<byte>]":                                 "walks a stream the compiler wrote: every opcode byte is one of the dense opcode constants (CODEC.1)",
+	"updateConstIndexes/<[]byte>[<int>+1]":                                             "operand bytes of OpConstant / OpClosure, whose widths the walk itself steps over (CODEC.5 dedup/decode)",
+	"updateConstIndexes/<[]byte>[<int>+2]":                                             "as above",
+	"updateConstIndexes/<[]byte>[<int>+3]":                                             "as above (the third operand byte of OpClosure)",
 	// node shapes guaranteed by the parser (premises re-checked below)
 	"Parser.parseSimpleStmt/<[]Expr>[0]": "parseExprList returns at least one expression",
 	"*/recv.LHS[0]":                      "every AssignStmt the parser builds has one left-hand side",
@@ -241,20 +274,53 @@ func idx2Premises(c *Ctx) {
 
 func ruleIDX2(c *Ctx) {
 	w := c.W
-	p := w.Parser
+	// scope: the functions of packages parser and tengo that the scan / parse /
+	// compile entry points of C04 reach (the call graph PANIC.1 uses); where a
+	// function lives is not part of the rule
+	entries := w.c04Entries()
+	for i, e := range entries {
+		if e == nil {
+			c.anchor(fmt.Sprintf("compile-path entry point #%d", i))
+			return
+		}
+	}
+	inPath := map[token.Pos]bool{}
+	for fn := range w.reachable(entries) {
+		if w.inModule(fn) && fn.Pos().IsValid() {
+			root := fn
+			for root.Parent() != nil {
+				root = root.Parent()
+			}
+			inPath[root.Pos()] = true
+		}
+	}
+	reached := func(fd *ast.FuncDecl) bool { return inPath[fd.Name.Pos()] }
+	n := idx2Package(c, w.Parser, func(fd *ast.FuncDecl) bool { return true })
+	n += idx2Package(c, w.Root, reached)
+	idx2Premises(c)
+	if n < 10 {
+		c.fail("unproven-bounds/matched", nil, fmt.Sprintf("only %d of the reported sites were matched to expressions", n))
+	}
+}
+
+func idx2Package(c *Ctx, p pkgT, inScope func(fd *ast.FuncDecl) bool) int {
+	w := c.W
 	rel, err := filepath.Rel(w.RepoDir, filepath.Dir(w.Fset.Position(p.Syntax[0].Pos()).Filename))
 	if err != nil {
-		c.anchor("package parser directory")
-		return
+		c.anchor("directory of package " + p.Name)
+		return 0
+	}
+	if rel == "" {
+		rel = "."
 	}
 	sites, err := w.unprovenBounds(p.PkgPath, rel)
 	if err != nil {
-		c.undecided("unproven-bounds/build", nil, err.Error())
-		return
+		c.undecided("unproven-bounds/build/"+p.Name, nil, err.Error())
+		return 0
 	}
 	if len(sites) < 10 {
-		c.fail("unproven-bounds/count", nil, fmt.Sprintf("the compiler listed only %d unproven bounds checks in package parser (the scanner alone indexes the source a dozen times): the listing is incomplete", len(sites)))
-		return
+		c.fail("unproven-bounds/count/"+p.Name, nil, fmt.Sprintf("the compiler listed only %d unproven bounds checks in package %s: the listing is incomplete", len(sites), p.Name))
+		return 0
 	}
 	// index the package's index/slice/call expressions by the position the compiler reports (the bracket / parenthesis)
 	type exprAt struct {
@@ -288,8 +354,22 @@ func ruleIDX2(c *Ctx) {
 			})
 		}
 	}
+	fileHasScope := map[string]bool{}
+	for _, ea := range at {
+		if inScope(ea.fd) {
+			pp := w.Fset.Position(ea.fd.Pos())
+			r, _ := filepath.Rel(w.RepoDir, pp.Filename)
+			fileHasScope[filepath.Clean(r)] = true
+		}
+	}
 	seq := seqKeys{}
 	n := 0
+	type pend struct {
+		key, shape string
+		e          ast.Expr
+	}
+	var pending []pend
+	present := map[string]bool{}
 	sort.Slice(sites, func(i, j int) bool {
 		if sites[i].File != sites[j].File {
 			return sites[i].File < sites[j].File
@@ -304,14 +384,25 @@ func ruleIDX2(c *Ctx) {
 			continue
 		}
 		ea, ok := at[fmt.Sprintf("%s:%d:%d", s.File, s.Line, s.Col)]
+		if ok && !inScope(ea.fd) {
+			continue
+		}
 		if !ok {
+			if !fileHasScope[s.File] {
+				continue
+			}
 			c.undecided(seq.next("unproven-bounds/"+s.File), nil, fmt.Sprintf("%s:%d:%d: the compiler reports an unproven bounds check that matches no index, slice or call expression", s.File, s.Line, s.Col))
 			continue
 		}
 		if call, isCall := ea.e.(*ast.CallExpr); isCall {
 			// the body of an inlined function of this package: its own site is listed where it is declared
-			if fn := Callee(p, call); fn != nil && fn.Pkg() == p.Types {
-				continue
+			if fn := Callee(p, call); fn != nil && fn.Pkg() != nil {
+				if w.inModulePkg(fn.Pkg()) {
+					continue // listed where it is declared (its package is checked or tabled there)
+				}
+				if !strings.Contains(strings.SplitN(fn.Pkg().Path(), "/", 2)[0], ".") {
+					continue // inlined standard-library code (the module has no other dependencies): in range by its own contract
+				}
 			}
 			if IsBuiltinCall(p, call, "copy") || IsBuiltinCall(p, call, "append") {
 				continue
@@ -328,6 +419,7 @@ func ruleIDX2(c *Ctx) {
 		}
 		if why, ok := idx2Table[funcKey(ea.fd)+"/"+shape]; ok {
 			c.ok(seq.next(key), ea.e, "in range by invariant: "+why)
+			present[funcKey(ea.fd)+"/"+shape] = true
 			continue
 		}
 		if strings.Contains(shape, "recv.") {
@@ -336,12 +428,36 @@ func ruleIDX2(c *Ctx) {
 				continue
 			}
 		}
-		c.fail(seq.next(key), ea.e, "the compiler cannot prove "+w.Src(ea.e)+" in range, no test of the index against the length dominates it, and it is not one of the sites confirmed by reading: on some input the scanner/parser can stop with a run-time error instead of reporting a parse error")
+		pending = append(pending, pend{key, shape, ea.e})
 	}
-	idx2Premises(c)
-	if n < 10 {
-		c.fail("unproven-bounds/matched", nil, fmt.Sprintf("only %d of the reported sites were matched to expressions", n))
+	// code that moved: a site of a tabled shape in another function takes the
+	// entry of a function in which that shape no longer occurs (the statement
+	// was extracted into a helper, or its function renamed). A new site next
+	// to a tabled one that is still in place finds no free entry.
+	free := map[string][]string{}
+	for k := range idx2Table {
+		i := strings.Index(k, "/")
+		if k[:i] == "*" || present[k] {
+			continue
+		}
+		// only entries of this package's functions
+		if w.FuncDecl(p, k[:i]) != nil && !strings.HasPrefix(k, "*/") {
+			// the function exists but holds no such site any more
+			free[k[i+1:]] = append(free[k[i+1:]], k)
+		} else if !funcExistsAnywhere(w, k[:i]) {
+			free[k[i+1:]] = append(free[k[i+1:]], k)
+		}
 	}
+	for _, pd := range pending {
+		if ks := free[pd.shape]; len(ks) > 0 {
+			sort.Strings(ks)
+			free[pd.shape] = ks[1:]
+			c.ok(seq.next(pd.key), pd.e, "in range by invariant (moved from "+ks[0][:strings.Index(ks[0], "/")]+"): "+idx2Table[ks[0]])
+			continue
+		}
+		c.fail(seq.next(pd.key), pd.e, "the compiler cannot prove "+w.Src(pd.e)+" in range, no test of the index against the length dominates it, and it is not one of the sites confirmed by reading: on some input the scanner/parser/compiler can stop with a run-time error instead of reporting an error")
+	}
+	return n
 }
 
 // idxGuarded: the index expression b[i] stands under a condition that bounds i by len(b).
@@ -400,6 +516,88 @@ func (w *World) idxGuarded(p pkgT, e ast.Expr, stack []ast.Node) string {
 			}
 		}
 		return false
+	}
+	// a descending loop over the whole slice: for i := len(b)-1 (or n-1 with n := len(b)); i >= 0; i--
+	if id, ok := ast.Unparen(ix.Index).(*ast.Ident); ok {
+		obj := p.TypesInfo.ObjectOf(id)
+		for i, nd := range stack {
+			fs, ok := nd.(*ast.ForStmt)
+			if !ok || i+1 >= len(stack) || stack[i+1] != ast.Node(fs.Body) || fs.Init == nil || fs.Cond == nil || fs.Post == nil {
+				continue
+			}
+			as, ok := fs.Init.(*ast.AssignStmt)
+			if !ok || len(as.Lhs) != 1 || len(as.Rhs) != 1 {
+				continue
+			}
+			if lid, ok := as.Lhs[0].(*ast.Ident); !ok || p.TypesInfo.ObjectOf(lid) != obj {
+				continue
+			}
+			b, ok := ast.Unparen(as.Rhs[0]).(*ast.BinaryExpr)
+			if !ok || b.Op != token.SUB {
+				continue
+			}
+			if k, ok := ConstInt(p, b.Y); !ok || k < 1 {
+				continue
+			}
+			isLen := w.Src(b.X) == "len("+base+")"
+			if nid, ok := ast.Unparen(b.X).(*ast.Ident); ok && !isLen {
+				// n defined once as len(base)
+				nobj := p.TypesInfo.ObjectOf(nid)
+				defs, lens := 0, 0
+				for _, root := range stack[:1] {
+					ast.Inspect(root, func(m ast.Node) bool {
+						a2, ok := m.(*ast.AssignStmt)
+						if !ok || len(a2.Lhs) != len(a2.Rhs) {
+							if ok {
+								for _, l := range a2.Lhs {
+									if li, ok := l.(*ast.Ident); ok && p.TypesInfo.ObjectOf(li) == nobj {
+										defs++
+									}
+								}
+							}
+							return true
+						}
+						for j, l := range a2.Lhs {
+							if li, ok := l.(*ast.Ident); ok && p.TypesInfo.ObjectOf(li) == nobj {
+								defs++
+								if w.Src(a2.Rhs[j]) == "len("+base+")" {
+									lens++
+								}
+							}
+						}
+						return true
+					})
+				}
+				isLen = defs > 0 && defs == lens
+			}
+			cb, okc := gtExpr(fs.Cond)
+			inc, okp := fs.Post.(*ast.IncDecStmt)
+			if !isLen || !okc || cb.Op != token.GEQ || w.Src(cb.X) != idx || !okp || inc.Tok != token.DEC || w.Src(inc.X) != idx {
+				continue
+			}
+			if k, ok := ConstInt(p, cb.Y); !ok || k < 0 {
+				continue
+			}
+			// the index is not written in the body
+			written := containsNode(fs.Body, func(m ast.Node) bool {
+				switch y := m.(type) {
+				case *ast.AssignStmt:
+					for _, l := range y.Lhs {
+						if li, ok := l.(*ast.Ident); ok && p.TypesInfo.ObjectOf(li) == obj {
+							return true
+						}
+					}
+				case *ast.IncDecStmt:
+					if li, ok := y.X.(*ast.Ident); ok && p.TypesInfo.ObjectOf(li) == obj {
+						return true
+					}
+				}
+				return false
+			})
+			if !written {
+				return "descending loop from len(" + base + ")-1 to 0"
+			}
+		}
 	}
 	for i, nd := range stack {
 		switch x := nd.(type) {
@@ -509,4 +707,13 @@ func (w *World) sliceGuarded(p pkgT, se *ast.SliceExpr, stack []ast.Node) string
 		why = append(why, idx+" is compared with len("+base+") on the way")
 	}
 	return strings.Join(why, "; ")
+}
+
+func funcExistsAnywhere(w *World, name string) bool {
+	for _, pk := range w.All {
+		if w.inModulePkg(pk.Types) && w.FuncDecl(pk, name) != nil {
+			return true
+		}
+	}
+	return false
 }
